@@ -239,3 +239,25 @@ Example C06_excess_flow_hypotheses_satisfiable :
   (0 < excess (map fst AuditExamples17.xfl) (flow_of AuditExamples17.xfl) [0;1;2;4;5]%N)%Z.
 Proof. exact AuditExamples17.excess_hypotheses. Qed.
 Print Assumptions C06_excess_flow_hypotheses_satisfiable.
+
+(* audit, second pass: all hypotheses of C06_inexact_excess_flow_safe (intervals [f-1, f+1] around the flow 5 -> 3 / 2 -> 5, the same
+   decomposition; the path 0 1 2 4 5 has worst-case excess 4 - 3 = 1) *)
+Example C06_inexact_excess_hypotheses_satisfiable :
+  (forall e, (AuditExamples17.xlb e <= flow_of AuditExamples17.xfl e)%Z) /\ (forall e, (flow_of AuditExamples17.xfl e <= AuditExamples17.xub e)%Z) /\
+  (forall pw, In pw AuditExamples17.xD -> (0 <= snd pw)%Z) /\
+  (forall pw, In pw AuditExamples17.xD -> incl (pairs (fst pw)) (map fst AuditExamples17.xfl)) /\
+  (forall pw x, In pw AuditExamples17.xD -> ~ In (last (fst pw) 0%N, x) (map fst AuditExamples17.xfl)) /\
+  (forall e, In e (map fst AuditExamples17.xfl) -> SafetyProofs3.Wt AuditExamples17.xD (SafetyProofs3.hasb e) = flow_of AuditExamples17.xfl e) /\
+  incl (pairs [0;1;2;4;5]%N) (map fst AuditExamples17.xfl) /\
+  (0 < inexact_excess (map fst AuditExamples17.xfl) AuditExamples17.xlb AuditExamples17.xub [0;1;2;4;5]%N)%Z.
+Proof. exact AuditExamples17.inexact_hypotheses. Qed.
+Print Assumptions C06_inexact_excess_hypotheses_satisfiable.
+
+(* audit, second pass: one concrete (G, X, ss, C) for C06_fix_certified_sound: the figure-eight graph with a by-pass, trusted items
+   (3,2) and (0,5), their safe sequences (pairwise incompatible), and a walk cover of the items by two walks *)
+Example C06_fix_certified_hypotheses_satisfiable :
+  pairwise_incompat_dec AuditExamples17.fGc 0%N 9%N AuditExamples17.fss = true /\
+  forallb (safe_dec AuditExamples17.fGc 0%N 9%N AuditExamples17.fX) AuditExamples17.fss = true /\
+  walk_cover AuditExamples17.fGc 0%N 9%N AuditExamples17.fX AuditExamples17.fC.
+Proof. exact AuditExamples17.fix_certified_hypotheses. Qed.
+Print Assumptions C06_fix_certified_hypotheses_satisfiable.
